@@ -97,6 +97,8 @@ def main(argv=None):
         from pyvc import run as pyrun
         executor = concurrent.futures.ProcessPoolExecutor(1)
         proof_future = executor.submit(pyrun.verify_targets, targets, REPO, args.tier, pid)
+        # the deductive tier runs first and alone (16 solver processes); the bounded tier follows
+        concurrent.futures.wait([proof_future])
 
     def collect_proof():
         proof = proof_future.result()
